@@ -678,6 +678,9 @@ def _arp(c, out):
 
 
 def oracle(c):
+    for _line, _o in zip(c.lines, c.impl):
+        if _o and "!doors-differ" in _o:
+            return [("sibling-functions-differ", {"line": _line[:300], "impl": _o[:400]})]
     out = []
     k = c.meta.get("k")
     try:
